@@ -3,6 +3,7 @@ package main
 import (
 	"fmt"
 	"go/ast"
+	"go/constant"
 	"go/token"
 	"go/types"
 	"sort"
@@ -17,7 +18,15 @@ func init() {
 func ruleVMUnwind(c *Ctx) []Obligation {
 	var obs []Obligation
 	roles := vmRoles(c)
-	fn, sw, cl, kindEnum, normal := vmRunExceptionClause(c)
+	// The branch is decided on the paths of one iteration of the run loop (the statements
+	// around the call of the instruction dispatcher), helpers spliced in: what happens
+	// after the kind of the interrupt is decided, and whether Core.Run itself returns.
+	rk := vmRunKindPaths(c)
+	fn, kindEnum, normal, res := rk.fn, rk.kindEnum, rk.normal, rk.res
+	clPos := rk.pos[normal]
+	if !clPos.IsValid() {
+		clPos = fn.fd.Pos()
+	}
 	info := fn.info
 	rt := c.Pkg("homescript/runtime")
 	handlers := vmStructField(rt, "Core", "ExceptionCatchLabels")
@@ -39,10 +48,10 @@ func ruleVMUnwind(c *Ctx) []Obligation {
 	}
 	setOp := vmConst(c, "homescript/compiler", "Opcode_SetTryLabel")
 	stored := "no clause for Opcode_SetTryLabel"
-	if scl := vmClauseOf(roles.dispatch.info, roles.dispSw, setOp); scl != nil {
+	if scl, nodes := roles.handlerNodes(setOp); scl != nil {
 		stored = "nothing"
 		di := roles.dispatch.info
-		for _, s := range scl.Body {
+		for _, s := range nodes {
 			ast.Inspect(s, func(n ast.Node) bool {
 				if as, ok := n.(*ast.AssignStmt); ok {
 					for i, l := range as.Lhs {
@@ -61,12 +70,11 @@ func ruleVMUnwind(c *Ctx) []Obligation {
 			})
 		}
 	}
-	obs = append(obs, Obligation{Key: prefix + "handler record", Pos: c.Pos(cl.Pos()), Status: Info,
+	obs = append(obs, Obligation{Key: prefix + "handler record", Pos: c.Pos(clPos), Status: Info,
 		Detail: fmt.Sprintf("handler record type: %s; the SetTryLabel case stores %s; the VM's exception branch pops the handler itself: %v", recDesc, stored, vmRunPopsHandler(c))})
 
-	res := vmWalk(vmWalkOpts{fn: fn, body: &ast.BlockStmt{List: cl.Body}})
 	if res.overflow {
-		obs = append(obs, Obligation{Key: prefix + "<paths>", Pos: c.Pos(cl.Pos()), Status: Undecided, Detail: "path cap exceeded"})
+		obs = append(obs, Obligation{Key: prefix + "<paths>", Pos: c.Pos(clPos), Status: Undecided, Detail: "path cap exceeded"})
 	}
 	// classify paths: handler installed?
 	type what struct {
@@ -110,7 +118,11 @@ func ruleVMUnwind(c *Ctx) []Obligation {
 			return false
 		}
 		found := false
-		for _, s := range cl.Body {
+		scan := []ast.Node{fn.fd.Body}
+		for _, g := range res.inlined {
+			scan = append(scan, g.fd.Body)
+		}
+		for _, s := range scan {
 			ast.Inspect(s, func(n ast.Node) bool {
 				f, ok := n.(*ast.ForStmt)
 				if !ok || f.Cond == nil {
@@ -131,43 +143,36 @@ func ruleVMUnwind(c *Ctx) []Obligation {
 		}
 		return found
 	}
-	for i := range res.paths {
-		p := &res.paths[i]
+	for _, kp := range rk.byKind[normal] {
+		p, j0 := kp.p, kp.j0
 		if p.o.kind == cPanic {
 			continue
 		}
+		pd := &vmPath{ev: p.ev[j0+1:], o: p.o} // the witness starts at the clause
 		// "no handler installed" decision: len(handlers) == 0 true / != 0 false / > 0 false
 		noHandler, decided := false, -1
 		for j, e := range p.ev {
-			if e.K != evCond {
+			if e.K != evCond || j < j0 {
 				continue
 			}
-			b, ok := ast.Unparen(e.X).(*ast.BinaryExpr)
-			if !ok || !vmLenOfField(info, b.X, handlers) {
+			empty, ok := vmLenIsZero(info, e.X, handlers)
+			if !ok {
 				continue
 			}
-			tv := info.Types[b.Y]
-			if tv.Value == nil || tv.Value.ExactString() != "0" {
-				continue
-			}
-			switch b.Op {
-			case token.EQL:
-				noHandler, decided = e.Taken, j
-			case token.NEQ, token.GTR:
-				noHandler, decided = !e.Taken, j
-			}
+			// the atom holds ⇔ (no handler installed == empty)
+			noHandler, decided = e.Taken == empty, j
 			break
 		}
 		if decided >= 0 && noHandler {
 			nUncaught++
 			if ok, why := vmSignalsAndReturns(c, fn, p, decided, signal, true); !ok {
-				badUncaught = append(badUncaught, fmt.Sprintf("%s (path [%s])", why, p.decisions()))
+				badUncaught = append(badUncaught, fmt.Sprintf("%s (path [%s])", why, pd.decisions()))
 			}
 			continue
 		}
 		// handler installed: the record variable
 		var rec types.Object
-		for _, e := range p.ev {
+		for _, e := range p.ev[j0:] {
 			if e.K == evAssign && e.Rhs != nil {
 				if ix, ok := ast.Unparen(e.Rhs).(*ast.IndexExpr); ok && vmFieldOf(info, ix.X) == handlers {
 					rec = vmObjOf(info, e.Lhs)
@@ -178,7 +183,7 @@ func ruleVMUnwind(c *Ctx) []Obligation {
 			w.n++
 			restored := false
 			var seen []string
-			for _, e := range p.ev {
+			for _, e := range p.ev[j0:] {
 				switch e.K {
 				case evAssign:
 					fromRec := e.Rhs != nil && ((rec != nil && vmMentionsObj(info, e.Rhs, rec)) || vmMentionsField(info, e.Rhs, handlers))
@@ -216,7 +221,7 @@ func ruleVMUnwind(c *Ctx) []Obligation {
 				if len(seen) > 0 {
 					did = "the branch only does " + strings.Join(seen, ", ")
 				}
-				w.bad = append(w.bad, fmt.Sprintf("not restored from the handler record: %s (path [%s])", did, p.decisions()))
+				w.bad = append(w.bad, fmt.Sprintf("not restored from the handler record: %s (path [%s])", did, pd.decisions()))
 			} else {
 				w.detail = append(w.detail, strings.Join(seen, ", "))
 			}
@@ -229,7 +234,7 @@ func ruleVMUnwind(c *Ctx) []Obligation {
 	}
 	for _, w := range targets {
 		ok := fmt.Sprintf("%d handler-installed path(s): %s", w.n, strings.Join(vmUniq(w.detail), " | "))
-		ob := vmOb(c, prefix+w.name, cl.Pos(), w.bad, ok)
+		ob := vmOb(c, prefix+w.name, clPos, w.bad, ok)
 		if ob.Status == Violated {
 			ob.Detail += fmt.Sprintf("; handler record is %s, SetTryLabel stores %s", recDesc, stored)
 			if cq := consequence[w.name]; cq != "" {
@@ -245,48 +250,87 @@ func ruleVMUnwind(c *Ctx) []Obligation {
 	if nUncaught == 0 {
 		badUncaught = append(badUncaught, "the clause never tests whether a handler is installed")
 	}
-	obs = append(obs, vmOb(c, prefix+"no handler installed: the uncaught-throw fatal interrupt is signalled and the core returns", cl.Pos(), badUncaught, fmt.Sprintf("%d path(s)", nUncaught)))
+	obs = append(obs, vmOb(c, prefix+"no handler installed: the uncaught-throw fatal interrupt is signalled and the core returns", clPos, badUncaught, fmt.Sprintf("%d path(s)", nUncaught)))
 
 	// ---- every other interrupt kind bypasses the handlers (VM)
 	for _, k := range kindEnum.Consts {
 		if k == normal {
 			continue
 		}
-		kc := vmClauseOf(info, sw, k)
-		how := "explicit clause"
-		if kc == nil {
-			how = "default clause"
-			for _, x := range sw.Body.List {
-				if x.(*ast.CaseClause).List == nil {
-					kc = x.(*ast.CaseClause)
-				}
-			}
-		}
+		how := rk.how[k]
 		key := fn.name + "|interrupt kind " + k.Name() + "|bypasses the handlers: signalled and the core returns"
-		if kc == nil {
-			obs = append(obs, Obligation{Key: key, Pos: c.Pos(sw.Pos()), Status: Violated, Detail: "the kind switch has neither a clause for this kind nor a default: the interrupt is silently dropped and execution continues"})
+		if len(rk.byKind[k]) == 0 {
+			obs = append(obs, Obligation{Key: key, Pos: c.Pos(clPos), Status: Violated, Detail: "no path of the run loop handles an interrupt of this kind (neither a clause for it nor a default): the interrupt is silently dropped and execution continues"})
 			continue
 		}
-		r2 := vmWalk(vmWalkOpts{fn: fn, body: &ast.BlockStmt{List: kc.Body}})
 		var bad []string
-		for i := range r2.paths {
-			p := &r2.paths[i]
+		n := 0
+		for _, kp := range rk.byKind[k] {
+			p, j0 := kp.p, kp.j0
 			if p.o.kind == cPanic {
 				continue
 			}
-			if ok, why := vmSignalsAndReturns(c, fn, p, -1, signal, false); !ok {
-				bad = append(bad, fmt.Sprintf("%s (path [%s])", why, p.decisions()))
+			pd := &vmPath{ev: p.ev[j0+1:], o: p.o}
+			n++
+			if ok, why := vmSignalsAndReturns(c, fn, p, j0, signal, false); !ok {
+				bad = append(bad, fmt.Sprintf("%s (path [%s])", why, pd.decisions()))
 			}
-			for _, e := range p.ev {
+			for _, e := range p.ev[j0:] {
 				if e.K == evAssign && e.Rhs != nil && vmMentionsField(info, e.Rhs, handlers) {
 					bad = append(bad, "the clause reads the handler stack")
 				}
 			}
 		}
-		obs = append(obs, vmOb(c, key, kc.Pos(), bad, fmt.Sprintf("%s, %d path(s)", how, len(r2.paths))))
+		if n == 0 {
+			bad = append(bad, "no path of the run loop enters the clause")
+		}
+		obs = append(obs, vmOb(c, key, rk.pos[k], bad, fmt.Sprintf("%s, %d path(s)", how, n)))
 	}
 	obs = append(obs, vmInterpUnwind(c)...)
 	return obs
+}
+
+// vmLenIsZero: the atom compares len(x.F) with a constant such that it is
+// equivalent to `len(x.F) == 0` (whenTrue=true) or to `len(x.F) != 0`
+// (whenTrue=false): == 0, != 0, > 0, >= 1, < 1, <= 0 and the mirrored forms.
+func vmLenIsZero(info *types.Info, atom ast.Expr, f *types.Var) (whenTrue, ok bool) {
+	b, isB := ast.Unparen(atom).(*ast.BinaryExpr)
+	if !isB {
+		return false, false
+	}
+	x, y, op := b.X, b.Y, b.Op
+	if !vmLenOfField(info, x, f) {
+		if !vmLenOfField(info, y, f) {
+			return false, false
+		}
+		// mirror: c OP len  ≡  len OP' c
+		x, y = y, x
+		switch op {
+		case token.LSS:
+			op = token.GTR
+		case token.LEQ:
+			op = token.GEQ
+		case token.GTR:
+			op = token.LSS
+		case token.GEQ:
+			op = token.LEQ
+		}
+	}
+	tv := info.Types[y]
+	if tv.Value == nil {
+		return false, false
+	}
+	k, exact := constant.Int64Val(constant.ToInt(tv.Value))
+	if !exact {
+		return false, false
+	}
+	switch {
+	case op == token.EQL && k == 0, op == token.LSS && k == 1, op == token.LEQ && k == 0:
+		return true, true
+	case op == token.NEQ && k == 0, op == token.GTR && k == 0, op == token.GEQ && k == 1:
+		return false, true
+	}
+	return false, false
 }
 
 // ---------------------------------------------------------------- interpreter
@@ -417,7 +461,38 @@ func vmInterpUnwind(c *Ctx) []Obligation {
 	if found == 0 {
 		obs = append(obs, Obligation{Key: "interpreter|try expression", Pos: "?", Status: Undecided, Detail: "no interpreter function evaluates AnalyzedTryExpression.CatchBlock: anchor lost"})
 	}
-	// loop statements swallow exactly break / continue
+	// loop statements swallow exactly break / continue. The decision on the interrupt kind may
+	// be written in a helper shared by the loops: helpers that themselves decide on the kind
+	// (and contain no loop) are spliced in.
+	decidesKind := func(g *vmFn) bool {
+		found, loops := false, false
+		ast.Inspect(g.fd.Body, func(n ast.Node) bool {
+			switch x := n.(type) {
+			case *ast.ForStmt:
+				if x.Cond == nil {
+					loops = true
+				}
+			case *ast.SwitchStmt:
+				if x.Tag != nil && g.info.TypeOf(x.Tag) != nil && types.Identical(g.info.TypeOf(x.Tag), brk.Type()) {
+					found = true
+				}
+			case *ast.BinaryExpr:
+				if x.Op == token.EQL || x.Op == token.NEQ {
+					for _, y := range []ast.Expr{x.X, x.Y} {
+						if k := ConstOf(g.info, ast.Unparen(y)); k != nil && types.Identical(k.Type(), brk.Type()) {
+							found = true
+						}
+					}
+				}
+			}
+			return true
+		})
+		return found && !loops
+	}
+	interpPkg := c.Pkg("homescript/interpreter")
+	kindInline := func(callee *vmFn, call *ast.CallExpr) bool {
+		return callee.pkg == interpPkg && decidesKind(callee)
+	}
 	for _, fn := range r.fns {
 		info := fn.info
 		var loops []*ast.ForStmt
@@ -430,7 +505,7 @@ func vmInterpUnwind(c *Ctx) []Obligation {
 		if len(loops) == 0 {
 			continue
 		}
-		res := vmWalk(vmWalkOpts{fn: fn})
+		res := vmWalk(vmWalkOpts{fn: fn, inline: kindInline})
 		var bad []string
 		n := 0
 		swallowed := map[string]bool{}
